@@ -603,8 +603,10 @@ pub const TTL_BOUNDARY: [&str; 22] = [
 /// Every token of length <= `max_len` over digits + unit letters (plus boundary values around
 /// 2^31 and 2^32) as the TTL of a record, as the `$TTL` argument and as SOA refresh.
 /// Judged: no panic; an all-digit token (RFC 1035: "TTL is a decimal integer") of value
-/// <= 2^31-1 must load with exactly that TTL. Everything else (units are a BIND extension,
-/// values above 2^31-1 are undefined by RFC 2181) is compared with `ref_ttl` and only counted.
+/// <= 2^31-1 must load with exactly that TTL; a token with units that the parser ACCEPTS and whose
+/// groups denote a value <= 2^31-1 must load with that value (`valid:unit-ttl:value-differs:*`,
+/// seed C20-7). Refusing units (a BIND extension) and values above 2^31-1 (undefined by RFC 2181)
+/// are compared with `ref_ttl` and only counted.
 pub fn ttl_tokens(ctx: &Ctx, w: &World, max_len: usize) -> u64 {
     let mut toks: Vec<String> = TTL_BOUNDARY.iter().map(|s| s.to_string()).collect();
     for len in 1..=max_len {
@@ -653,7 +655,22 @@ pub fn ttl_tokens(ctx: &Ctx, w: &World, max_len: usize) -> u64 {
             }
             return;
         }
-        // not judged: BIND units, values above 2^31-1, SOA fields
+        // A token with BIND-style units (the grammar `parse_ttl` documents: <number><unit> groups and
+        // an optional trailing number of seconds, all ADDED) that the parser ACCEPTS must load with
+        // the value it denotes: judged in the only-if form - both the parser and the reference
+        // accept, the denoted value fits 31 bits, and the loaded value differs. (Refusing the
+        // extension altogether, and everything above 2^31-1, stays unjudged.)
+        if let (Some(g), Some(wv)) = (got, want) {
+            if g != wv && wv <= i32::MAX as u64 {
+                l.violation(
+                    &format!("valid:unit-ttl:value-differs:{}", ["record", "$TTL", "soa-refresh"][pos as usize]),
+                    &format!("time value {tok:?} was accepted and loaded as {g}; its groups denote {wv} (every <number><unit> group and a trailing number of seconds are added)"),
+                    case,
+                );
+                return;
+            }
+        }
+        // not judged: refusing BIND units, values above 2^31-1
         let want = if pos == 2 { want.filter(|v| *v <= i32::MAX as u64) } else { want };
         if got == want {
             l.outcome(if got.is_some() { "obs:ttl-token:agrees-with-reference:value" } else { "obs:ttl-token:agrees-with-reference:rejected" });
